@@ -404,15 +404,24 @@ def miri_leg(root, prop, seed, res):
     penv = {"VP_THREADS": 1, "VP_EXH_MAX": 30, "VP_EXH_LEN": 3, "VP_RANDOM": 3, "VP_GUIDED": 3, "VP_CLONES": 3,
             "VP_CTORS": 1, "VP_CROSS": 0, "VP_STUCK_CPU_S": 1000000}
     base = (seed % 1000) * 100000
-    eng.add_batches("recover", "base", [base + i for i in range(3)], 3, penv)
-    eng.add_batches("actions", "base", [base + i for i in range(2)], 2, penv)
+    eng.add_batches("recover", "base", [base + i for i in range(4)], 1, penv)
+    eng.add_batches("actions", "base", [base + i for i in range(2)], 1, penv)
+    eng.add_batches("accum", "base", [base + i for i in range(2)], 1, penv)
     eng.generate()
     t0 = time.time()
     total = {"executions": 0, "clone_runs": 0, "lexers": 0}
-    for b in eng.batches:
+
+    def one(b):
         env = dict(eng.env)
         env.update({k: str(v) for k, v in penv.items()})
-        rc, out, err, to = run(["cargo", "+nightly", "miri", "run", "--offline", "--bin", b.name], cwd=eng.work, env=env, timeout=3600)
+        return (b,) + run(["cargo", "+nightly", "miri", "run", "--offline", "--bin", b.name], cwd=eng.work, env=env, timeout=3600)
+
+    from concurrent.futures import ThreadPoolExecutor
+    # the first invocation builds the dependencies for the interpreter; run it alone, then the rest in parallel
+    results = [one(eng.batches[0])]
+    with ThreadPoolExecutor(max_workers=8) as ex:
+        results += list(ex.map(one, eng.batches[1:]))
+    for (b, rc, out, err, to) in results:
         if to:
             res.inconclusive.append("miri leg: wall-clock watchdog (3600 s) on %s" % b.name)
             continue
